@@ -31,4 +31,5 @@ Definition run (comp : Z) (inp : list Z) : list Z :=
   else if comp =? 70 then run_iter_num inp
   else if comp =? 71 then run_play inp
   else if comp =? 61 then run_file_hist inp
+  else if comp =? 62 then run_heap_hist inp
   else [-3].
